@@ -441,6 +441,8 @@ def _make_exc(what):
         return falcon.HTTPStatus(what[1])
     if k == 'custom':
         return CustomAppError('custom')
+    if k == 'ws_disconnected':
+        return falcon.WebSocketDisconnected(1001)
     return RuntimeError('generic failure')
 
 
